@@ -201,6 +201,11 @@ def step (st : St) (line : String) : St × String :=
           finish st b
     | "rel", cn :: pid :: _ =>
       if (b.cli? cn).isNone then (st, "no-conn") else finish st (b.pubrelIn cn (natOf pid))
+    | "pp", cn :: _ =>
+      -- `pp <conn> k=<n> q=<1|2> pid0=<p>`: n QoS>0 publishes to a topic nobody subscribes, ONE in flight at a time (each sent when
+      -- the previous acknowledgement has arrived): a client that stays within any Receive Maximum >= 1. Every one is acknowledged,
+      -- nothing else happens (`inbound_quota_never_refused`); state-neutral for the model.
+      if (b.cli? cn).isNone then (st, "no-conn") else (st, s!"pp acks={getN m "k" 5} disc=- closed=0")
     | "ping", cn :: _ =>
       if (b.cli? cn).isNone then (st, "no-conn") else finish st (b.emit cn false .pingresp)
     | "disc", cn :: _ =>
